@@ -505,7 +505,12 @@ where
                     if let Some(k) = x.iter().find(|k| k.start() < k.end() && !y.iter().any(|m| m.start() <= k.start() && k.end() <= m.end())) {
                         let f = |v: &Vec<Chunk>| v.iter().map(|k| (u64::from(k.start()), u64::from(k.end()))).collect::<Vec<_>>();
                         if c.lost.len() < 4 {
-                            c.lost.push(format!("query(ref {r}, {iv}): chunk {:?} of the answer {:?} is not covered by the answer after the round trip {:?}", (u64::from(k.start()), u64::from(k.end())), f(&x), f(&y)));
+                            c.lost.push(format!(
+                                "query(ref {r}, {iv}): chunk {:?} of the answer {:?} is not covered by the answer after the round trip {:?}",
+                                (u64::from(k.start()), u64::from(k.end())),
+                                f(&x),
+                                f(&y)
+                            ));
                         }
                     }
                     if x != y && c.answers.len() < 6 {
@@ -559,7 +564,8 @@ fn csi_written_loffsets(ix: &BinnedIndex, bins: &IndexMap<usize, Bin>) -> Binned
 
 /// `Some(class)` iff the loffsets read back are exactly what the unchanged writer emits for `a`.
 pub fn csi_loffset_diff_is_ancestor_minimum(a: &Index<BinnedIndex>, b: &Index<BinnedIndex>) -> Option<&'static str> {
-    let modelled = a.reference_sequences().len() == b.reference_sequences().len() && a.reference_sequences().iter().zip(b.reference_sequences()).all(|(x, y)| &csi_written_loffsets(x.index(), x.bins()) == y.index());
+    let modelled = a.reference_sequences().len() == b.reference_sequences().len()
+        && a.reference_sequences().iter().zip(b.reference_sequences()).all(|(x, y)| &csi_written_loffsets(x.index(), x.bins()) == y.index());
     if !modelled {
         return None;
     }
@@ -722,16 +728,29 @@ where
                 } else {
                     csi_explain.and_then(|f| f(&b, &b2)).unwrap_or("offset-index-changed").to_string()
                 };
-                let what = c2.hard.first().map(|h| h.1.clone()).or_else(|| c2.lost.first().cloned()).or_else(|| c2.answers.iter().find(|s| !s.is_empty()).cloned()).unwrap_or_else(|| "offset index differs, all probe answers equal".into());
+                let what = c2
+                    .hard
+                    .first()
+                    .map(|h| h.1.clone())
+                    .or_else(|| c2.lost.first().cloned())
+                    .or_else(|| c2.answers.iter().find(|s| !s.is_empty()).cloned())
+                    .unwrap_or_else(|| "offset index differs, all probe answers equal".into());
                 o.violation(
                     format!("roundtrip:{kind}:second-round-trip-changes-index:{class}"),
-                    format!("{kind} index ({src}): write+read of the index that was read back gives a different index ({} of {} probe answers differ): {what}; original index: {}", c2.answers.len(), c2.probes, brief(a)),
+                    format!(
+                        "{kind} index ({src}): write+read of the index that was read back gives a different index ({} of {} probe answers differ): {what}; original index: {}",
+                        c2.answers.len(),
+                        c2.probes,
+                        brief(a)
+                    ),
                 );
             } else {
                 o.count(&format!("second_roundtrips_equal[{kind}]"), 1);
             }
         }
-        Io::WriteErr(e) | Io::ReadErr(e) => o.violation(format!("roundtrip:{kind}:second-round-trip-failed"), format!("{kind} index ({src}) read back from noodles' own output cannot be written+read again: {e}")),
+        Io::WriteErr(e) | Io::ReadErr(e) => {
+            o.violation(format!("roundtrip:{kind}:second-round-trip-failed"), format!("{kind} index ({src}) read back from noodles' own output cannot be written+read again: {e}"))
+        }
         Io::Panic(sig, msg) => o.violation(format!("roundtrip:{kind}:panic:{sig}"), format!("second round trip: {msg}")),
     }
     let c = compare(a, &b, rng);
